@@ -34,28 +34,36 @@ def units(bins, tier, seed):
     return [Unit("c13_fileserver.cfg%d" % c, [b], env={"C13_CFG": c, "RC_PARAMS": rc_params(seed * 1000 + c, n, 100)}, group="cfg%d" % c, timeout=7200) for c in cfgs]
 
 
+def _cfg_of(path):
+    import os, re
+    m = re.search(r"cfg(\d+)", os.path.basename(path))
+    return int(m.group(1)) if m else 1
+
+
+def _replay_fn(bins):
+    def fn(path):
+        return verif.replay_with(bins["c13_fileserver"], extra_env={"C13_CFG": _cfg_of(path)})(path)
+    return fn
+
+
 def run(tier, seed):
     return verif.standard(ID, tier, seed, specs(), units, RULE, level=LEVEL,
                           floor=dict(("cfg%d" % c, 2500) for c in QUICK_CFGS),
                           assumptions=["harness path model (percent decoder, stack normaliser, realpath) is correct",
-                                       "PATH_INFO is a C string: the model cuts the decoded path at the first NUL"])
+                                       "PATH_INFO is a C string: the model cuts the decoded path at the first NUL"],
+                          replay_fn=_replay_fn)
 
 
 def replay(path):
-    import os
-    b = os.path.basename(path)
-    cfg = 1
-    import re
-    m = re.search(r"cfg(\d+)", b)
-    if m:
-        cfg = int(m.group(1))
-    return verif.standard_replay(specs(), path, replay_env={"C13_CFG": cfg})
+    bins = verif.build_many(specs())
+    return _replay_fn(bins)(path)
 
 
 MUTATIONS = [
     dict(name="is_file_prefix-no-separator-test", edits=[("src/internal_file_server.cpp", "\tif(full.size() > prefix_size && !is_directory_separator(full[prefix_size]))\n\t\treturn false;", "")]),
     dict(name="dotdot-climbs-above-root", edits=[("src/internal_file_server.cpp", "\t\t\tif(out > min_pos)\n\t\t\t\tout --;\n\t\t\twhile(out > min_pos) {", "\t\t\tout --;\n\t\t\twhile(out > min_pos) {")]),
-    dict(name="is_in_root-skipped-for-trailing-slash", edits=[("src/internal_file_server.cpp", "\tif(check_symlinks_) {\n\t\tif(!is_in_root(normal,root,real))", "\tif(check_symlinks_ && normal[normal.size()-1]!='/') {\n\t\tif(!is_in_root(normal,root,real))")]),
+    # (the design's "skip is_in_root when the path ends in '/'" is an equivalent mutant: normalize_path strips the trailing slash)
+    dict(name="is_in_root-skipped-for-html-files", edits=[("src/internal_file_server.cpp", "\tif(check_symlinks_) {\n\t\tif(!is_in_root(normal,root,real))", "\tif(check_symlinks_ && (normal.size() < 6 || normal.compare(normal.size()-5,5,\".html\")!=0)) {\n\t\tif(!is_in_root(normal,root,real))")]),
     dict(name="listing-not-escaped", edits=[("src/internal_file_server.cpp", "<< util::urlencode(d.name()) << add << \"'>\" << util::escape(d.name()) << add", "<< util::urlencode(d.name()) << add << \"'>\" << d.name() << add")]),
     dict(name="listing-shows-dotfiles", edits=[("src/internal_file_server.cpp", "\t\tif(memcmp(d.name(),\".\",1) == 0)\n\t\t\tcontinue;", "\t\tif(strcmp(d.name(),\".\") == 0 || strcmp(d.name(),\"..\") == 0)\n\t\t\tcontinue;")]),
     dict(name="normalize-dotdot-regression", edits=[("src/internal_file_server.cpp", "\t\t\t\t\tout ++;\n\t\t\t\t\tbreak;", "\t\t\t\t\tbreak;")]),
